@@ -190,6 +190,7 @@ class Findings:
         self.by_key = {}
         self.harness = []
         self.exit_leaks = []
+        self.notes = []      # work that could not be completed; inconclusive unless a violation is reported anyway
 
     def add(self, key, witness, report, origin, alone=True):
         """alone: the witness produced the report when executed by itself; such a witness beats any that did not, then size decides"""
@@ -224,7 +225,7 @@ def replay_lists(ctx, exe, paths, tag, findings, suspects, mode='run', timeout=1
 
     def one(ish):
         i, sh = ish
-        res = dict(out=[], crashes=[], incomplete=None, exit_leaks=[])
+        res = dict(out=[], crashes=[], incomplete=None, exit_leaks=[], soft=None)
         if not sh:
             return res
         lf = os.path.join(ctx.work, 'list-%s-%d.txt' % (tag, i))
@@ -257,7 +258,7 @@ def replay_lists(ctx, exe, paths, tag, findings, suspects, mode='run', timeout=1
             start = int(m.group(1)) + 1
             restarts += 1
             if restarts > cap_restarts:
-                res['incomplete'] = 'replay shard %s/%d: more than %d crashing files' % (tag, i, cap_restarts)
+                res['soft'] = 'replay shard %s/%d stopped after %d files that ended in a report (%d files not replayed)' % (tag, i, cap_restarts, len(sh) - start)
                 break
         return res
 
@@ -283,8 +284,11 @@ def replay_lists(ctx, exe, paths, tag, findings, suspects, mode='run', timeout=1
             ctx.count('sanitizer_reports')
         for err in r['exit_leaks']:
             findings.exit_leaks.append(err)
+        if r['soft']:
+            findings.notes.append(r['soft'])
+            ctx.count('replay_shards_stopped_at_report_cap')
         if r['incomplete']:
-            raise core.Inconclusive(r['incomplete'])
+            findings.notes.append(r['incomplete'])
     return crashed
 
 
@@ -638,6 +642,8 @@ def run(ctx):
     for r in jobs:
         if r.get('note_soft'):
             ctx.count('jobs_hit_restart_cap')
+    if findings.notes and not ctx.violations:
+        raise core.Inconclusive('; '.join(findings.notes[:4]))
     if findings.harness:
         raise core.Inconclusive('report(s) that name no libksi frame (harness suspected):\n' + '\n---\n'.join(findings.harness[:3]))
     for r in jobs:
